@@ -111,7 +111,7 @@ func c01NilImplementations(c *core.Check) {
 // a pointer to an array is a constant and tests nothing.
 func c01NilResults(c *core.Check) {
 	p := c.Prog
-	r := c.Rule("R18", "a result that can be nil is tested before it is used: for every static call to a function of the module that returns a pointer or a map and contains `return nil`, each dereference of the result (field, element, load, write into the map) is reachable only after a comparison of that result with nil (the length of a pointer to an array is a constant: `len(p) == 2` tests nothing)", 5)
+	r := c.Rule("R18", "a result that can be nil is tested before it is used: for every static call to a function of the module that returns a pointer or a map and contains `return nil`, each dereference of the result (field, element, load, write into the map) is reachable only after a comparison of that result with nil (the length of a pointer to an array is a constant: `len(p) == 2` tests nothing)", 4)
 	retNil := map[*ssa.Function]bool{}
 	for _, fn := range p.ModFuncs {
 		if fn.Blocks == nil || fn.Signature.Results().Len() != 1 {
